@@ -28,6 +28,7 @@ func vStub_bcrypt_CompareHashAndPassword(hashedPassword, password []byte) error 
 
 // vStubAM is a recording AccountManager. Behaviour is configured by the harness.
 type vStubAM struct {
+	getResult2 *hotline.Account // a second account (looked up by its login)
 	getResult  *hotline.Account
 	getCalls   []string
 	created    []hotline.Account
@@ -52,10 +53,13 @@ func (m *vStubAM) Update(a hotline.Account, newLogin string) error {
 }
 func (m *vStubAM) Get(login string) *hotline.Account {
 	m.getCalls = append(m.getCalls, login)
-	if m.getResult == nil || m.getResult.Login != login {
-		return nil
+	if m.getResult != nil && m.getResult.Login == login {
+		return m.getResult
 	}
-	return m.getResult
+	if m.getResult2 != nil && m.getResult2.Login == login {
+		return m.getResult2
+	}
+	return nil
 }
 func (m *vStubAM) List() []hotline.Account {
 	m.listCalls++
